@@ -160,6 +160,14 @@ func TestC08(t *testing.T) {
 				if alive {
 					alive = step("lookup", func() { vm = mk() })
 				}
+				if alive && rng.Chance(1, 3) {
+					// the program itself assigns the variable after the mocker was obtained and before the first mock:
+					// "the value it had before its first mock" is this one
+					w := vals[rng.Intn(len(vals))]
+					reflect.NewAt(typ, addr).Elem().Set(restoreValue(typ, w))
+					snapBits, snapVal = memOf(addr, typ.Size()), read()
+					hist = append(hist, fmt.Sprintf("program assigns %s", show(w)))
+				}
 				for i := 0; i < nset && alive; i++ {
 					v := vals[rng.Intn(len(vals))]
 					if rng.Bool() || typ.Kind() == reflect.Interface && v == nil {
@@ -207,6 +215,35 @@ func TestC08(t *testing.T) {
 						fail(key, fmt.Sprintf("variable holds %v (memory %s), before the first mock it held %v (memory %s)", read(), got, snapVal, snapBits))
 						break
 					}
+				}
+				// a second round through the mocker object the user still holds (or a fresh lookup): mocked again, then
+				// Reset - the pre-mock value is back once more
+				if alive && rng.Bool() {
+					kept := rng.Bool()
+					if !kept {
+						alive = step("lookup-after-cancel", func() { vm = mk() })
+					}
+					v := vals[rng.Intn(len(vals))]
+					if alive && !(typ.Kind() == reflect.Interface && v == nil) {
+						alive = step(fmt.Sprintf("Set(%s)[second round, kept object: %v]", show(v), kept), func() { vm.Set(v) })
+						if alive {
+							rep.Eval(1)
+							if ok, how := same(typ, addr, v); !ok {
+								fail("C08/set-not-observed", fmt.Sprintf("second round: variable does not hold the mocked value %s (%s)", show(v), how))
+							}
+							if rng.Bool() {
+								alive = step("Reset", func() { b.Reset() })
+							} else {
+								alive = step("Cancel", func() { vm.Cancel() })
+							}
+							if alive {
+								if got := memOf(addr, typ.Size()); got != snapBits {
+									fail("C08/not-restored", fmt.Sprintf("second round: variable holds %v (memory %s), before the first mock it held %v (memory %s)", read(), got, snapVal, snapBits))
+								}
+							}
+						}
+					}
+					rep.Stat("second_rounds", 1)
 				}
 				outcome := "ok"
 				if !alive {
